@@ -84,6 +84,9 @@ ObsChecksIx(o, pfx, ix) ==
    <<pfx \o "Tags", {<<o.tags[i][1], o.tags[i][2]>> : i \in 1..Len(o.tags)} = TagPairs(tags)>>,
    <<pfx \o "TagAnnotations", \A i \in 1..Len(o.tags) : o.tags[i][1] \in Refs => o.tags[i][3] = tagann[o.tags[i][1]]>>,
    <<pfx \o "ExistsPlain", Rng(o.existsplain) = Present /\ Rng(o.fetchplain) = Present>>,
+   \* the live store answers with the descriptor as it was tagged: the reference-name annotation of index.json (which a
+   \* reopened store may show, C08) is not part of it
+   <<pfx \o "NoRefNameLeak", pfx = "Live" => \A i \in 1..Len(o.tags) : o.tags[i][4] = "">>,
    <<pfx \o "Pred", \A n \in Nodes : Rng(o.pred[n]) = Pred(content, n)>>,
    <<pfx \o "PredNoDup", \A n \in Nodes : Len(o.pred[n]) = Cardinality(Rng(o.pred[n]))>>,
    <<pfx \o "ByDigest", IsOci => /\ Rng(o.byindex) = ix
